@@ -193,6 +193,8 @@ impl RollingFileAppender {
         } = builder;
         let directory = directory.as_ref().to_path_buf();
         let now = OffsetDateTime::now_utc();
+        #[cfg(tracing_verif)]
+        let now = __verif::now().unwrap_or(now);
         let (state, writer) = Inner::new(
             now,
             rotation.clone(),
@@ -211,6 +213,11 @@ impl RollingFileAppender {
 
     #[inline]
     fn now(&self) -> OffsetDateTime {
+        #[cfg(tracing_verif)]
+        if let Some(t) = __verif::now() {
+            return t;
+        }
+
         #[cfg(test)]
         return (self.now)();
 
@@ -246,10 +253,67 @@ impl<'a> tracing_subscriber::fmt::writer::MakeWriter<'a> for RollingFileAppender
             // Did we get the right to lock the file? If not, another thread
             // did it and we can just make a writer.
             if self.state.advance_date(now, current_time) {
+                #[cfg(tracing_verif)]
+                __verif::yield_point(1);
                 self.state.refresh_writer(now, &mut self.writer.write());
             }
         }
         RollingWriter(self.writer.read())
+    }
+}
+
+/// Verification hooks (`--cfg tracing_verif` only): an injectable clock (unix seconds + nanoseconds,
+/// thread-local override first, then process-wide) and a schedule yield point.
+#[cfg(tracing_verif)]
+#[doc(hidden)]
+pub mod __verif {
+    use std::cell::Cell;
+    use std::sync::atomic::{AtomicBool, AtomicI64, Ordering};
+    use std::sync::RwLock;
+    use time::OffsetDateTime;
+
+    static ON: AtomicBool = AtomicBool::new(false);
+    static SECS: AtomicI64 = AtomicI64::new(0);
+    static NANOS: AtomicI64 = AtomicI64::new(0);
+    thread_local! {
+        static LOCAL: Cell<Option<(i64, i64)>> = Cell::new(None);
+    }
+    #[allow(clippy::type_complexity)]
+    static YIELD: RwLock<Option<Box<dyn Fn(u32) + Send + Sync>>> = RwLock::new(None);
+
+    /// Sets the process-wide clock override.
+    pub fn set_clock(unix_secs: i64, nanos: i64) {
+        SECS.store(unix_secs, Ordering::SeqCst);
+        NANOS.store(nanos, Ordering::SeqCst);
+        ON.store(true, Ordering::SeqCst);
+    }
+    /// Removes the process-wide clock override.
+    pub fn clear_clock() {
+        ON.store(false, Ordering::SeqCst);
+    }
+    /// Sets (or clears) the calling thread's clock override; it takes precedence.
+    pub fn set_thread_clock(t: Option<(i64, i64)>) {
+        LOCAL.with(|l| l.set(t));
+    }
+    /// Installs (or removes) the yield callback.
+    pub fn set_yield(f: Option<Box<dyn Fn(u32) + Send + Sync>>) {
+        *YIELD.write().unwrap() = f;
+    }
+    pub(crate) fn now() -> Option<OffsetDateTime> {
+        let t = LOCAL.with(|l| l.get()).or_else(|| {
+            if ON.load(Ordering::SeqCst) {
+                Some((SECS.load(Ordering::SeqCst), NANOS.load(Ordering::SeqCst)))
+            } else {
+                None
+            }
+        })?;
+        let base = OffsetDateTime::from_unix_timestamp(t.0).ok()?;
+        Some(base + time::Duration::nanoseconds(t.1))
+    }
+    pub(crate) fn yield_point(id: u32) {
+        if let Some(f) = YIELD.read().unwrap().as_ref() {
+            f(id)
+        }
     }
 }
 
